@@ -152,7 +152,7 @@ Ctor(st0, bp, s) ==
               SetVar(SetVar(GovCore(st, s), s, "FISC_BAL", DVar(<< s, "INC" >>)), s, "T", DConst0)
          [] k = "Treasury" ->
               SetVar(SetVar(GovCore(st, s), s, "DEM_MON", DZero), s, "T", DZero)
-         [] k = "CentralBank" ->
+         [] k \in {"CentralBank", "GoldStandardCentralBank"} ->
               SetVar(st, s, "DEM_DEP", DSum(MAdd(M1({<< s, "F" >>}, 1), {<< s, "SUP_MON" >>}, 1)))
          [] k = "Household" ->
               SetVar(HouseholdCore(st, bp, s), s, "SUP_" \o d.lab, DConst0)
@@ -210,6 +210,13 @@ PostCtor(st, bp, s) ==
                ELSE st1
     \* a GIFT variable, and a variable XTRA built with AddTermToEquation from a product of two names
     IN IF d.gift THEN SetVar(SetVar(st2, s, "GIFT", DAtom), s, "XTRA", DAtom) ELSE st2
+
+(* statements that need two objects to exist (issued after all declarations): AddMarket on a multi-output business *)
+RECURSIVE LateMarkets(_, _, _)
+LateMarkets(st, bp, s) ==
+    IF s = 0 THEN st
+    ELSE LET st1 == LateMarkets(st, bp, s - 1)
+         IN IF Sec(bp, s).late = << >> THEN st1 ELSE MultiMarkets(st1, bp, s, Sec(bp, s).late)
 
 (* ExternalSector(model): XR, FX, GOLD; one rate / NET / F / LAG_F per currency *)
 RECURSIVE RegisterCurrencies(_, _, _)
@@ -482,6 +489,7 @@ Gen(st, bp, decl, s) ==
               [] k = "FixedMarginBusinessMultiOutput" -> GenMultiOutput(st, bp, decl, s)
               [] k = "CentralBank" -> GenCentralBank(st, bp, s)
               [] k = "GoldStandardGovernment" -> GenGoldGovernment(st, bp, s)
+              [] k = "GoldStandardCentralBank" -> GenGoldGovernment(GenCentralBank(st, bp, s), bp, s)
               [] OTHER -> st
 
 ----------------------------------------------------------------------------
@@ -545,7 +553,7 @@ GenAll(st, bp, decl, order) ==
 InitialSt(bp) == IF HasExt(bp) THEN RegisterCurrencies(EmptySt(bp), bp, Currencies(bp)) ELSE EmptySt(bp)
 
 RunAll(bp, decl) ==
-    LET st1 == DeclareAll(InitialSt(bp), bp, decl)
+    LET st1 == LateMarkets(DeclareAll(InitialSt(bp), bp, decl), bp, NSec(bp))
         st2 == GenAll(st1, bp, decl, GenOrder(bp, decl))
         st3 == CashFlowsOp(st2, bp, bp.flows \o st2.reg)
         st4 == ExoOp(st3, bp.exo)
@@ -617,7 +625,8 @@ Declare(s) ==
 FullCodes ==
     /\ phase = "declare" /\ Len(decl) = NSec(bp)
     /\ phase' = "gen" /\ gi' = 1
-    /\ UNCHANGED << bp, decl, st >>
+    /\ st' = LateMarkets(st, bp, NSec(bp))      \* the script's AddMarket statements, then main() starts
+    /\ UNCHANGED << bp, decl >>
 
 Generate ==
     /\ phase = "gen" /\ gi <= NSec(bp)
